@@ -269,6 +269,17 @@ theorem normalize_eval (lt : V → V → Bool) (c : Cmp) (a b : Rec V) :
           rename_i p q; cases p <;> cases q <;> simp_all
         · simp [hx]
 
+/-- A body written with guard clauses means what its nested rewriting means: the reader of
+generated text may hand either rendering to the model. -/
+theorem evalGuards_eq (lt : V → V → Bool) (gs : List (String × RetExpr)) (last : RetExpr) (a b : Rec V) :
+    evalGuards lt a b gs last = (Cmp.ofGuards gs last).eval lt a b := by
+  induction gs with
+  | nil => rfl
+  | cons g gs ih =>
+    obtain ⟨acc, e⟩ := g
+    simp only [evalGuards, Cmp.ofGuards, Cmp.eval, ih]
+    cases Val.eq (a acc) (b acc) <;> simp
+
 /-! ### sorting by priority: the result does not depend on the sorting algorithm -/
 
 theorem sortP_perm (l : List SFD) : (sortP l).Perm l := List.mergeSort_perm l _
